@@ -486,14 +486,29 @@ mod imp {
             _ => t.word() as u32,
         };
         let with_file = t.below(2) == 1;
-        let off_nonzero = t.below(2) == 1;
+        let off_sel = t.below(7);
         let map_fixed = t.below(4) == 3;
         let explicit = t.below(2) == 1;
         let size = t.pick(&[PS, 1, PS + 1, 3 * PS]);
         let flen = (size.div_ceil(PS) * PS + 8 * PS) as u64;
-        let offset = if off_nonzero { PS as u64 } else { 0 };
+        let offset = match off_sel {
+            0 => 0,
+            1 => PS as u64,
+            2 => 0x800,
+            3 => PS as u64 + 1,
+            4 => flen - size as u64,
+            5 => flen - size as u64 + 1,
+            _ => 2 * PS as u64,
+        };
+        let off_nonzero = offset != 0;
         let guest_base = PS as u64 * (1 + t.below(4));
         let file = if with_file { Some(memfd(flen)) } else { None };
+        let dup = file.as_ref().map(|f| f.try_clone().expect("dup"));
+        if let Some(d) = &dup {
+            // position-dependent file contents
+            let fill: Vec<u8> = (0..flen as usize).map(|i| ((i as u32).wrapping_mul(2654435761) >> 11) as u8).collect();
+            d.write_all_at(&fill, 0).expect("pwrite");
+        }
         let fo = file.map(|f| FileOffset::new(f, offset));
         let mut range = MmapRange::new(size, fo, GuestAddress(guest_base), word, 11);
         let flags_val = libc::MAP_SHARED | if map_fixed { libc::MAP_FIXED } else { 0 };
@@ -533,9 +548,10 @@ mod imp {
         let r = MmapRegion::<()>::from_range(range);
         let log = interpose::take();
         match r {
-            Err(e) if must_fail.is_empty() && unix && !with_file && ename(&e) == "Mmap" => {
+            Err(e) if must_fail.is_empty() && unix && (!with_file || offset % PS as u64 != 0) && ename(&e) == "Mmap" => {
                 // a UNIX-type range without a file and with the default (shared, non-anonymous)
-                // flags is refused by the OS itself
+                // flags, or with a file offset that is not a multiple of the page size, is
+                // refused by the OS itself
                 let _ = interpose::end();
                 cx.label("refused_by_os");
                 ensure!(interpose::live_after(&log).is_empty(), "refused construction left mappings behind");
@@ -555,6 +571,25 @@ mod imp {
                 let want_flags = if explicit { flags_val } else { libc::MAP_NORESERVE | libc::MAP_SHARED };
                 ensure!(region.flags() == want_flags, "flags() = {:#x}, asked {:#x}", region.flags(), want_flags);
                 ensure!(region.file_offset().map(|f| f.start()) == if with_file { Some(offset) } else { None }, "file_offset() mismatch");
+                if let (true, Some(d)) = (unix, &dup) {
+                    // shared file-backed region: byte i of the region is byte offset+i of the file
+                    use vm_memory::{Bytes, VolatileMemory};
+                    cx.nt("xen_unix_file_contents");
+                    let vs = region.get_slice(0, size).map_err(|e| format!("get_slice(0, size): {:?}", e))?;
+                    let n = size.min(2 * PS);
+                    let mut seen = vec![0u8; n];
+                    vs.read_slice(&mut seen, 0).map_err(|e| format!("{:?}", e))?;
+                    let want = pread_all(d, offset, n);
+                    ensure!(seen == want, "region created at file offset {:#x}: its bytes are not the file bytes at {:#x}.. (first difference at region byte {})", offset, offset, seen.iter().zip(&want).position(|(a, b)| a != b).unwrap_or(0));
+                    let before = pread_all(d, 0, flen as usize);
+                    let pat: Vec<u8> = (0..n).map(|i| (i as u8).wrapping_mul(7) ^ 0xA5).collect();
+                    vs.write_slice(&pat, 0).map_err(|e| format!("{:?}", e))?;
+                    let after = pread_all(d, 0, flen as usize);
+                    for i in 0..flen as usize {
+                        let w = if (i as u64) >= offset && (i as u64) < offset + n as u64 { pat[i - offset as usize] } else { before[i] };
+                        ensure!(after[i] == w, "after writing the region (file offset {:#x}, {:#x} bytes) file byte {:#x} is {:#04x}, expected {:#04x}", offset, n, i, after[i], w);
+                    }
+                }
                 drop(region);
                 let l2 = interpose::end();
                 let all: Vec<Ev> = log.iter().cloned().chain(l2.into_iter()).collect();
@@ -568,7 +603,7 @@ mod imp {
     fn gen_c15_words(_t: Tier) -> Box<dyn Iterator<Item = Vec<u64>>> {
         // every low flag word (and three with unknown bits) x file x offset x MAP_FIXED x explicit
         Box::new((0..19u64).flat_map(|w| {
-            (0..2u64).flat_map(move |f| (0..2u64).flat_map(move |o| (0..4u64).flat_map(move |fx| (0..2u64).flat_map(move |ex| (0..4u64).map(move |sz| vec![w, f, o, fx, ex, sz, 0])))))
+            (0..2u64).flat_map(move |f| (0..7u64).flat_map(move |o| (0..4u64).flat_map(move |fx| (0..2u64).flat_map(move |ex| (0..4u64).map(move |sz| vec![w, f, o, fx, ex, sz, 0])))))
         }))
     }
 
